@@ -155,6 +155,19 @@ def inverse_rules(repo, rep):
     texts = ['grid distance = ellipsoidal distance * line scale factor', 'grid bearing 1->2 = azimuth + convergence at point 1 (own zone)',
              'grid bearing 2->1 = reverse azimuth + convergence at point 2 (own zone)', 'line scale factor of the two grid points']
     w = where(f, f.node)
+    # input tests of vincinv_utm itself: the second point may lie in the same zone or in either neighbouring zone
+    from .. import guards
+    evg = Evaluator(repo, opaque=OPQ)
+    Eg = sym_ellipsoid(evg, repo, 'ellipsoid')
+    gargs = dict(args)
+    gargs[ps[3]] = Rat.sym('zone1') + Rat.sym('dzone')
+    gargs[ps[7]] = Eg
+    evg.call_function(f, gargs)
+    dom = {'zone1': (2, 59), 'dzone': (-1, 1), 'east1': (100000, 900000), 'east2': (-400000, 1400000), 'north1': (0, 10000000), 'north2': (0, 10000000)}
+    n_g = guards.guard_rule(rep, 'R-GUARD', f, evg.raise_conds, dom, 'zones 2..59 with the second point in the same or an adjacent zone', lambda nd: where(f, nd),
+                            integer=('zone1', 'dzone'))
+    if n_g == 0:
+        rep.holds('R-GUARD', 'R-GUARD::geodepy/geodesy.py::vincinv_utm::no-own-tests', w, 'vincinv_utm has no raising input test of its own (validation is left to grid2geo)')
     if not isinstance(val, Tup) or len(val.items) != 4:
         rep.undecided('R-WIRE', 'R-WIRE::geodepy/geodesy.py::vincinv_utm::shape', w, 'vincinv_utm does not evaluate to a 4-tuple')
         return
